@@ -122,6 +122,23 @@ theorem item_not_consumed_by_absent_waiter (cfg : Cfg) (hc : cfg.allChecked = tr
   · rw [if_pos hlen]; simp
   · rw [if_neg hlen]; simp
 
+/-- ★ the same for the event the loop pushes on a supervisor channel when a supervised task ends (`ev/go f v chan`): it is an item
+on a channel — if every pending reader of that channel has left, the event is queued, nobody is scheduled, no fiber changes and (mode 2)
+nobody is registered as a pending writer either. -/
+theorem supervisor_event_not_consumed_by_absent_waiter (cfg : Cfg) (hc : cfg.allChecked = true) (w : World) (c : Nat) (x : Val)
+    (hopen : (w.chans c).closed = false) (hall : ∀ e ∈ (w.chans c).rp, live w e.fiber e.schedId = false) :
+    ((superPush cfg w c x).chans c).items = (w.chans c).items ++ [x] ∧ ((superPush cfg w c x).chans c).wp = (w.chans c).wp ∧
+    (superPush cfg w c x).queue = w.queue ∧ (superPush cfg w c x).fibers = w.fibers := by
+  obtain ⟨-, -, hps, -, -, -, -, -, -, -, -⟩ := allChecked_fields hc
+  unfold superPush
+  rw [hps, popLive_all_stale w _ hall]
+  simp [hopen]
+
+/-- a LIVE reader of the supervisor channel does receive the event -/
+example :
+    ((run Cfg.full init [.spawn 1, .run, .take 1 0 false, .superPush 0 (.sup 0 2), .run]).log.map
+      (fun e => (e.fiber, e.task.value))) = [(1, .sup 0 2), (1, .nil)] := by decide
+
 /-- ★ ev/sleep never returns early: a task created by the timer of `(ev/sleep d)` started at tick `s` is executed at a tick
 `≥ s + round(1000·d)` (d given in microseconds; ticks are the code's own millisecond granularity). -/
 theorem sleep_not_early (cfg : Cfg) (hc : cfg.allChecked = true) (ops : List Op) :
